@@ -385,7 +385,7 @@ static Plan gen_plan(uint64_t seed, const std::string& profile_name, uint64_t ru
       Step s = gen_op(r, P, c, nh, p, true);
       if (s.op == OP_SET || s.op == OP_SET_VEC || s.op == OP_INIT_PARAM) {
         // a store is often followed by a comparison with an instance that only ever saw the new values
-        double pf = p.profile == "C10" ? 0.35 : p.profile == "C11" ? 0.3 : p.profile == "GEN" ? 0.15 : 0.05;
+        double pf = p.profile == "C10" ? 0.35 : p.profile == "C11" ? 0.3 : p.profile == "C19" ? 0.25 : p.profile == "GEN" ? 0.15 : 0.05;
         if (r.bern(pf)) {
           p.steps.push_back(s);
           Step f;
